@@ -167,9 +167,10 @@ Record mon := mkMon {
   m_inst : N;                       (* counts the window instances seen *)
   m_req_ok : list (N * N);          (* label -> instance in which an unmodified request was answered *)
   m_p1_ok : list (N * N);           (* label -> instance in which an honest, unmodified Pake1 was answered *)
-  m_pending : list (N * bool)       (* label -> the final status of its handshake (success?) awaits its ack *)
+  m_pending : list (N * bool);      (* label -> the final status of its handshake (success?) awaits its ack *)
+  m_stage : list (N * N)            (* label -> 1: its request was answered, 2: its Pake1 was answered *)
 }.
-Definition mon0 : mon := mkMon None 0 [] [] [].
+Definition mon0 : mon := mkMon None 0 [] [] [] [].
 
 Fixpoint a_get {A} (e : N) (l : list (N * A)) : option A :=
   match l with
@@ -263,9 +264,34 @@ Definition mon_step (m : mon) (o : sop) (r : out) (p c : obs) : mon * list viol 
         end
     | None => l
     end in
+  let live_for e :=
+    match o_marker p, o_win p with
+    | Some (x, false), Some (_, false) => x =? e
+    | _, _ => false
+    end in
+  let v_now :=
+    (* failures that end the handler at once, on the exchange owning the live marker *)
+    match o with
+    | SP1 e _ pt _ =>
+        match pt, a_get e (m_stage m) with
+        | PcIdentity, Some 1 | PcOffCurve, Some 1 | PcMalformed, Some 1 => if live_for e then expect_bump [] else []
+        | _, _ => []
+        end
+    | SP3 e CcMalformed _ =>
+        match a_get e (m_stage m) with
+        | Some 2 => if live_for e then expect_bump [] else []
+        | _ => []
+        end
+    | SStatus e =>
+        match a_get e (m_stage m), a_get e (m_pending m) with
+        | Some _, None => if live_for e then expect_bump [] else []
+        | _, _ => []
+        end
+    | _ => []
+    end in
   let v_fail :=
     match o with
-    | SAck e | SAbort e =>
+    | SAck e | SAbort e | SStatus e =>
         match a_get e (m_pending m) with
         | Some false => expect_bump []
         | Some true =>
@@ -352,8 +378,19 @@ Definition mon_step (m : mon) (o : sop) (r : out) (p c : obs) : mon * list viol 
     | SAck e | SAbort e | SReq e _ _ _ | SP1 e _ _ _ | SStatus e => a_del e (m_pending m)
     | _ => m_pending m
     end in
-  (mkMon pw' inst' req_ok' p1_ok' pending',
-   v_sess ++ v_lost ++ v_fail ++ v_range ++ v_busy ++ v_adv).
+  let stage' :=
+    match o with
+    | SReq e _ _ _ =>
+        let l := a_del e (m_stage m) in
+        match r with OResp _ _ => (e, 1) :: l | _ => l end
+    | SP1 e _ _ _ =>
+        let l := a_del e (m_stage m) in
+        match r with OPake2 _ => (e, 2) :: l | _ => l end
+    | SP3 e _ _ | SStatus e | SAbort e => a_del e (m_stage m)
+    | _ => m_stage m
+    end in
+  (mkMon pw' inst' req_ok' p1_ok' pending' stage',
+   v_sess ++ v_lost ++ v_now ++ v_fail ++ v_range ++ v_busy ++ v_adv).
 
 Definition obs0 : obs := mkObs None None [] false false.
 
@@ -456,3 +493,14 @@ Definition e2e_run (s : st) (pw_init : N) (mi : mitm) (at_msg : N) (w : wop) : s
   | OResp n None => give_up s
   | _ => (s, false)
   end.
+
+(** The executable property for a two-node run: a session (on either side) only if
+    the man in the middle changed nothing, a window is open when Pake3 arrives and
+    the initiator's passcode is that window's. *)
+Definition e2e_holds (pwb pwa : N) (benign : bool) (w : wop) (at_msg : N)
+    (a_ok : bool) (b_sess : N) : bool :=
+  let session := a_ok || (0 <? b_sess) in
+  let applied := at_msg <? 3 in
+  let open_at_end := match w with WClose | WExpire => negb applied | _ => true end in
+  let pw_end := match w with WReopen p => if applied then p else pwb | _ => pwb end in
+  if session then benign && open_at_end && (pwa =? pw_end) else true.
